@@ -198,10 +198,12 @@ func c11Exec(cs fw.Case) *fw.Fail {
 		return cls, ""
 	}
 	total := 0
+	var steps int64
 	for b := 0; b <= c.Bound; b++ {
 		x := &vsched.Explorer{Bound: b, Body: body, Check: check, Stop: func() bool { fw.Heartbeat(); return fw.Cur != nil && fw.Cur.Expired() }, MaxExec: maxExecPerCase()}
 		x.Explore()
 		total = x.Executions
+		steps = x.Steps + int64(x.Executions)
 		if x.Infra != "" {
 			return fw.Failf("deterministic replay under the scheduler", "INFRA %s (schedule %v)", x.Infra, x.FailTrace)
 		}
@@ -225,7 +227,7 @@ func c11Exec(cs fw.Case) *fw.Fail {
 	}
 	fw.Tally("schedules", int64(total))
 	fw.Tally("states", int64(total))
-	fw.Tally("transitions", int64(total))
+	fw.Tally("transitions", steps)
 	fw.Tally("traces_validated", int64(total))
 	fw.TallyNontrivial()
 	return nil
